@@ -10,7 +10,7 @@ Definition enc_oN (o : option N) : obs := match o with Some n => enc_N n | None 
 Definition enc_oL (o : option (list N)) : obs := match o with Some l => OBytes l | None => ONone end.
 
 Definition enc_kind (k : msgkind) : obs :=
-  OTag (match k with MSync => "s" | MAsync => "a" | MRaise => "r" end).
+  OTag (match k with MSync => "s" | MAsync => "a" | MRaise => "r" | MCoRaise => "c" end).
 Definition enc_frame (f : frame) : obs :=
   match f with
   | FClose CPEmpty => OList [OTag "Close"]
@@ -34,6 +34,9 @@ Definition enc_item (i : item) : obs :=
   | IOnClose c r => OList [OTag "OnClose"; enc_oN c; enc_oL r]
   | IWriteOk => OTag "WriteOk"
   | IWriteErr => OTag "WriteErr"
+  | IPingOk => OTag "PingOk"
+  | IPingErr => OTag "PingErr"
+  | ICloseErr => OTag "CloseErr"
   | ILogExc => OTag "LogExc"
   end.
 Definition enc_ltag (t : ltag) : obs :=
@@ -53,7 +56,7 @@ Definition dec_oL (o : obs) : option (option (list N)) :=
   match o with ONone => Some None | OBytes l => Some (Some l) | _ => None end.
 Definition dec_kind (o : obs) : option msgkind :=
   match o with
-  | OTag t => if t =? "s" then Some MSync else if t =? "a" then Some MAsync else if t =? "r" then Some MRaise else None
+  | OTag t => if t =? "s" then Some MSync else if t =? "a" then Some MAsync else if t =? "r" then Some MRaise else if t =? "c" then Some MCoRaise else None
   | _ => None
   end.
 Definition dec_frame (o : obs) : option frame :=
@@ -75,7 +78,9 @@ Definition dec_item (o : obs) : option item :=
   match o with
   | OTag t =>
       if t =? "OnMessage" then Some IOnMessage else if t =? "WriteOk" then Some IWriteOk
-      else if t =? "WriteErr" then Some IWriteErr else if t =? "LogExc" then Some ILogExc else None
+      else if t =? "WriteErr" then Some IWriteErr else if t =? "LogExc" then Some ILogExc
+      else if t =? "PingOk" then Some IPingOk else if t =? "PingErr" then Some IPingErr
+      else if t =? "CloseErr" then Some ICloseErr else None
   | OList [OTag t; OTag u] =>
       if t =? "Sent" then
         if u =? "Data" then Some (ISent SData) else if u =? "Ping" then Some (ISent SPing)
